@@ -630,6 +630,30 @@ def reuse_suite(world, pool, tier, rng):
         seqs = [s for s in seqs if len(s) < 3] + rng.sample([s for s in seqs if len(s) == 3], 500)
     for _ in range(300 if tier == "thorough" else 40):
         seqs.append(tuple(rng.randrange(len(alpha)) for _ in range(rng.randrange(5, 60))))
+    # --- configuration that changes between calls: the key comes from a callback that is later removed or replaced
+    cfg_steps = [("setcb-key", "setcb key:%d:%d,alg:1" % it), ("setcb-none", "setcb -"), ("setcb-inert", "setcb getalg"),
+                 ("setkey", "setkey 0 %d %d" % it), ("unsetkey", "setkey 0")]
+    toks2 = [alpha[0], alpha[1], alpha[8]]      # valid, badsig, unsigned
+    hist = [h for n in range(2, 5) for h in itertools.product(range(len(cfg_steps) + len(toks2)), repeat=n)]
+    hist = rng.sample(hist, 1500 if tier == "thorough" else 300)
+    for h in hist:
+        world.op("ck 2 new", tag="cfg")
+        applied = []
+        for x in h:
+            if x < len(cfg_steps):
+                world.op("ck 2 " + cfg_steps[x][1], tag="cfg")
+                applied.append(cfg_steps[x][1])
+                continue
+            name, tok = toks2[x - len(cfg_steps)]
+            world.op("ck 3 new", tag="cfg")
+            for l in applied:
+                world.op("ck 3 " + l, tag="cfg")
+            ref = len(world.ops)
+            metas.append((ref, {"kind": "verify", "tok": name, "role": "fresh-reference"}))
+            world.op("ck 3 verify " + hx(tok), tag="verify")
+            metas.append((len(world.ops), {"kind": "verify", "tok": name, "role": "reused", "ref": ref,
+                                           "history": "/".join(cfg_steps[y][0] if y < len(cfg_steps) else toks2[y - len(cfg_steps)][0] for y in h)[:100]}))
+            world.op("ck 2 verify " + hx(tok), tag="verify")
     # reference verdicts from fresh checkers
     ref_at = {}
     for i, (name, tok) in enumerate(alpha):
@@ -722,6 +746,9 @@ def falsify_reuse(m, out, eo):
         if field(out, "rc") != field(ref, "rc"):
             return "verdict on a reused checker (%s after [%s]) is rc=%s, a fresh identically configured checker says rc=%s" % (
                 m["tok"], m["history"], field(out, "rc"), field(ref, "rc"))
+        if out.split(" cb=")[-1] != ref.split(" cb=")[-1]:
+            return "the callback of a reused checker (%s after [%s]) is handed a different configuration than on a fresh identically configured checker: %s vs %s" % (
+                m["tok"], m["history"], out.split(" cb=")[-1][:80], ref.split(" cb=")[-1][:80])
     return None
 
 
@@ -1387,7 +1414,7 @@ def jwk_import_suite(world, pool, tier, rng):
     what the JWK states; PEM compared component-wise through the independent oracle"""
     metas = []
     thorough = tier == "thorough"
-    specs = [("rsa", 2048), ("rsapss", 2048), ("ec", "P-256"), ("ec", "P-384"), ("ec", "P-521"), ("ec", "secp256k1"),
+    specs = [("rsa", 2048), ("rsa", 2047), ("rsapss", 2048), ("ec", "P-256"), ("ec", "P-384"), ("ec", "P-521"), ("ec", "secp256k1"),
              ("okp", "ED25519"), ("okp", "ED448")]
     if thorough:
         specs += [("rsa", 3072), ("rsa", 4096)]
@@ -1502,7 +1529,7 @@ def keyring_suite(world, pool, tier, rng):
     for si, sq in enumerate(seqs):
         world.op("jwks %d del" % S0, cmp=False, tag="cfg")
         world.load_doc(S0, b'{"keys":[]}', "strn", tag="cfg")       # an empty set to start from
-        lst, seterr = [], 0
+        lst, seterr, step_no = [], 0, 0
         for ai in sq:
             a = alphabet[ai]
             if a[0] == "load":
@@ -1544,7 +1571,11 @@ def keyring_suite(world, pool, tier, rng):
             world.op("jwks %d count" % S0, tag="kr")
             metas.append((len(world.ops), {"kind": "kr", "op": "errany", "want": str(seterr + sum(1 for _, e in lst if e))}))
             world.op("jwks %d errany" % S0, tag="kr")
-            for i in sorted({0, len(lst) - 1, len(lst)} - {-1}):
+            idxs = sorted({0, len(lst) // 2, len(lst) - 1, len(lst)} - {-1})
+            step_no += 1
+            if (step_no + si) % 2:
+                idxs = idxs[::-1]        # alternate ascending / descending: the first probe after a removal is sometimes a high index
+            for i in idxs:
                 w = "none" if i >= len(lst) else ("kid=%s err=%d" % (hx(lst[i][0].encode()), 1 if lst[i][1] else 0))
                 metas.append((len(world.ops), {"kind": "kr-item", "op": "get %d" % i, "want": w}))
                 world.op("jwks %d item %d" % (S0, i), tag="kr")
@@ -1643,3 +1674,37 @@ def falsify_providers(m, out, eo):
         if field(out, "rc") != "0":
             return "%s/%s token signed under %s is rejected under %s (key loaded under %s)" % (m["key"], m["alg"], m["gen"], m["ver"], m["loaded"])
     return None
+
+
+def ecdsa_volume_suite(world, pool, tier, rng, curves):
+    """C05: many ECDSA signatures made under each provider, verified under the other: short and
+    sign-octet-carrying r/s values (1/256 each, 1/500 combined) must occur many times"""
+    metas = []
+    n = 12000 if tier == "thorough" else 2500
+    world.op("clock 9000", tag="cfg")
+    s = 500
+    for cname, key, alg in curves:
+        priv = world.add_key(s, key, private=True, alg_attr=None)
+        pub = world.add_key(s + 1, key, private=False, alg_attr=None)
+        s += 2
+        a = K.ALG_ORD[alg]
+        for signer, verifier in (("gnutls", "openssl"), ("openssl", "gnutls")):
+            cnt = n if signer == "gnutls" else n // 5
+            world.op("prov name " + hx(signer.encode()), tag="cfg")
+            world.op("bl 0 new", tag="cfg")
+            world.op("bl 0 setkey %d %d %d" % ((a,) + priv), tag="cfg")
+            world.op("bl 0 iat 0", tag="cfg")
+            world.op("ck 0 new", tag="cfg")
+            world.op("ck 0 setkey %d %d %d" % ((a,) + pub), tag="cfg")
+            for i in range(cnt):
+                world.op("prov name " + hx(signer.encode()), tag="cfg")
+                if i % 50 == 0:
+                    world.op("bl 0 cset int %s %d 1" % (hx(b"n"), i // 50), tag="cfg")
+                metas.append((len(world.ops), {"kind": "gen", "hdr": JL.jenc({"alg": alg, "typ": "JWT"}), "pay": JL.jenc({"n": i // 50}), "alg": alg,
+                                               "now": 9000, "seq": "%s signed under %s" % (cname, signer), "prog": None}))
+                world.op("bl 0 gen", tag="gen")
+                world.op("prov name " + hx(verifier.encode()), tag="cfg")
+                metas.append((len(world.ops), {"kind": "verify-generated", "key": cname, "alg": alg, "sign": signer, "verify": verifier, "want_obs": ""}))
+                world.op("ck 0 verify @last", tag="verify")
+    world.op("prov name " + hx(b"openssl"), tag="cfg")
+    return metas
